@@ -227,6 +227,7 @@ def msg_exhaustive(chk, relevant, mask="all", cross_impl=False, spec_relevant=No
 def c01(chk):
     chk.extract(("messageTypes", "timeCodeTypes"))
     chk.proofs(["Midi.Props.C01"])
+    chk.translated(['TShort', 'TStruct'])
     msg_exhaustive(chk, C01_CELLS, mask="c01")
     chk.assumptions += ["a third-party implementor is any record of three getters + from_bytes_unchecked (model: universally quantified `Factory`); the harness exercises two concrete ones"]
 
@@ -234,12 +235,14 @@ def c01(chk):
 def c02(chk):
     chk.extract(("messageTypes", "timeCodeTypes", "controllerNumbers"))
     chk.proofs(["Midi.Props.C02"])
+    chk.translated(['TShort'])
     msg_exhaustive(chk, C02_CELLS, mask="c02")
 
 
 def c03(chk):
     chk.extract(("messageTypes", "timeCodeTypes"))
     chk.proofs(["Midi.Props.C03", "Midi.Props.C03S"])
+    chk.translated(['TShort'])
     # a deviation from the MIDI table that all implementations share is not a C03 violation (it is C01/C02's);
     # the oracle here is (a) pairwise agreement of the four implementations on the same bytes and (b) the one
     # permitted difference: StructuredShortMessage's own data bytes are the canonical ones
@@ -292,6 +295,7 @@ def blocks_then_lines(chk, exe, gen_args, name, relevant=None):
 def c06(chk):
     chk.extract(("messageTypes", "timeCodeTypes"))
     chk.proofs(["Midi.Props.C06"])
+    chk.translated(['TShort'])
     exe = chk.cargo_build("std")
     if exe is None:
         return
